@@ -1075,8 +1075,18 @@ fn m4(cfg: &Cfg, log: &mut Log) {
     .iter()
     .map(|(w, th)| {
       let exe = exe.clone();
+      let root = cfg.root.clone();
       let (w, th, seed) = (*w, *th, cfg.seed);
-      std::thread::spawn(move || std::process::Command::new(exe).arg("--child").arg(seed.to_string()).arg(w.to_string()).arg(if th { "1" } else { "0" }).output())
+      let fallback = format!("{}/harness/target/release/vcheck", root);
+      std::thread::spawn(move || {
+        let run = |e: &str| std::process::Command::new(e).arg("--child").arg(seed.to_string()).arg(w.to_string()).arg(if th { "1" } else { "0" }).output();
+        // the path of the running binary can disappear when the harness is rebuilt meanwhile: fall back to the
+        // built binary under the root
+        match run(&exe) {
+          Err(_) => run(&fallback),
+          ok => ok,
+        }
+      })
     })
     .collect();
   let mut tables: Vec<(u64, bool, BTreeMap<usize, String>)> = vec![];
